@@ -133,7 +133,14 @@ def replay(ob, env, s, m):
     if k == "rhs":
         r = ob.meta["idx"][0]
         return model.differs(pg.get_val("rhs")[r], pf.get_val("rhs")[r], 1e-6), "rhs[%d] = %.9g vs %.9g" % (r, pg.get_val("rhs")[r], pf.get_val("rhs")[r])
-    return None, "force replay uses the AIC comparison"
+    if k == "F":
+        # converged real models: sectional forces with the ground plane against those of the surface next to its explicit image
+        name = s["name"]
+        Fg = np.array(pg.get_val(name + "_sec_forces"), dtype=float)
+        Ff = np.array(pf.get_val(name + "_sec_forces"), dtype=float)
+        d = float(np.abs(Fg - Ff).max())
+        return d > 1e-6 * max(1.0, float(np.abs(Ff).max())), "sectional forces with the ground plane differ from those next to the explicit image by %.4g (max |F| = %.4g)" % (d, float(np.abs(Ff).max()))
+    return None, "no replay for kind %s" % k
 
 
 def replay_file(path):
